@@ -998,13 +998,15 @@ def _create_socks_endpoint(reactor, control_protocol, socks_config=None):
     # everything in the SocksPort list can include "options" after the
     # initial value. We don't care about those to find an endpoint,
     # but must keep them if we re-issue the whole list (below).
-    socks_lines = list(socks_ports)
+    # (a line with port "0" means "no SOCKS listener"; Tor refuses it
+    # next to a real port so it is neither usable nor re-issued)
+    socks_lines = [port for port in socks_ports if port.split()[0] != '0']
     socks_ports = [port.split()[0] for port in socks_ports]
 
     # could check platform? but why would you have unix ports on a
     # platform that doesn't?
     unix_ports = set([p for p in socks_ports if p.startswith('unix:')])
-    tcp_ports = set(socks_ports) - unix_ports
+    tcp_ports = set(socks_ports) - unix_ports - set(['0'])
 
     socks_endpoint = None
     for p in list(unix_ports) + list(tcp_ports):  # prefer unix-ports
